@@ -16,7 +16,6 @@ import os
 import re
 import shutil
 import sys
-import threading
 from concurrent.futures import ThreadPoolExecutor
 from urllib.parse import quote
 
@@ -271,13 +270,6 @@ class World(object):
             return list(MODEL_BASE) + path[len(self.base) + 1:].split('/')
         return path.split('/')
 
-    def consts(self, sanitise):
-        k = self.kind
-        dimconf = ({'key': 'time', 'values': set(DIM_VALUES), 'default': DIM_DEFAULT},) if k.dims else ()
-        return dict(Root=MODEL_BASE + ('data', 'cc'), LockRoot=MODEL_BASE + ('tlocks',), ConfRoot=MODEL_BASE + ('conf',),
-                    Projects={PROJECT}, Backend=k.backend, Layout=k.layout, Sanitise=sanitise, Ext=k.ext,
-                    Levels=self.levels, Layers={LAYER}, DimConf=dimconf, LockId='ID')
-
 
 class _PathProxy(object):
     def __init__(self, real):
@@ -354,9 +346,11 @@ def build(world, req):
         else:
             x0, y0, x1, y1 = x, y, x, y
         bbox = tile_bbox(x0, y0, x1, y1, z)
-        qs = [('SERVICE', 'WMS'), ('VERSION', '1.1.1'), ('REQUEST', 'GetMap'), ('LAYERS', layer), ('STYLES', ''),
-              ('SRS', 'EPSG:3857'), ('BBOX', ','.join(repr(float(v)) for v in bbox)),
+        qs = [('SERVICE', 'WMS'), ('VERSION', '1.3.0' if req.get('v130') else '1.1.1'), ('REQUEST', 'GetMap'), ('LAYERS', layer),
+              ('STYLES', ''), ('CRS' if req.get('v130') else 'SRS', 'EPSG:3857'), ('BBOX', ','.join(repr(float(v)) for v in bbox)),
               ('WIDTH', str(TILE * (x1 - x0 + 1))), ('HEIGHT', str(TILE * (y1 - y0 + 1))), ('FORMAT', 'image/png')]
+        if req.get('tiled'):
+            qs.append(('TILED', 'true'))
         return pre + '/service', '&'.join('%s=%s' % (_q(k, full), _q(v, full)) for k, v in qs + dims)
     if flow == 'wmts_kvp':
         qs = [('SERVICE', 'WMTS'), ('VERSION', '1.0.0'), ('REQUEST', 'GetTile'), ('LAYER', layer), ('STYLE', ''),
@@ -375,6 +369,7 @@ def build(world, req):
     raise ValueError(flow)
 
 
+CANARIES = ['/etc/passwd', '/tmp/c09-escape']      # targets of the absolute / deep-climbing spellings the drivers send
 _LOCK_RE = re.compile(r'^(.*)-(\d+)-(\d+)-(\d+)\.lck$')
 _TMP_RE = re.compile(r'\.tmp-\d+$')
 _DIR_EVENTS = {'os.mkdir', 'os.rmdir', 'os.listdir', 'os.scandir', 'glob.glob'}
@@ -432,8 +427,8 @@ def observe_raw(world, path_info, qs, flow='wms', extra_headers=None):
     kind = world.kind
     for ev, paths in events:
         for p in paths:
-            n = os.path.normpath(os.path.join('/', p))
-            inside = under(world.top, n)
+            n = os.path.normpath(os.path.abspath(p))
+            inside = under(world.top, n) or any(under(c, n) for c in CANARIES)
             read = ev in _READ_EVENTS
             if read and not inside:
                 continue            # templates, python modules, proj data ...
@@ -685,7 +680,7 @@ def model_checks(ctx, variant):
     # with the unrepaired dimensions_part SafeWMS is known to fail: the big instances then explore everything
     # else (SafeOther and the structural invariants) and small WMS-only instances produce the counterexamples
     invs = INVARIANTS + (['SafeWMS'] if variant == 'nosep' else [])
-    jobs.append(('file-tc', kinds['file-tc'], dict(maxsegs=5 if thorough else 4, levels=2), invs))
+    jobs.append(('file-tc', kinds['file-tc'], dict(maxsegs=5 if thorough else 4, levels=2 if thorough else 1), invs))
     jobs.append(('file-tc-levels', kinds['file-tc'], dict(maxsegs=2, levels=4 if thorough else 3), invs))
     if thorough:
         jobs.append(('file-tc-2dims', kinds['file-tc'], dict(maxsegs=2, maxdims=2, levels=2, tok=['', '.', '..', 'a', 'v1'],
@@ -797,50 +792,51 @@ def spec_to_code(ctx, variant, kinds):
     thorough = ctx.tier == 'thorough'
     per_group = 4 if thorough else 2
     nreplayed = 0
-    for ki, kind in enumerate(kinds):
-        insts = [('a', dict(levels=2, tok=['', '..', 'a', 'v1', 'decoy'], maxsegs=2, maxdims=1, idx=(-1, 0, 1, 2))),
-                 ('b', dict(levels=2, tok=['..', 'decoy'], maxsegs=3 if thorough else 2, maxdims=2, idx=(0,), flows=['wms']))]
-        for iname, kw in insts:
-            r, cases = terminal_cases(ctx, kind.name + '-' + iname, mc_consts(kind, variant, **kw))
-            ctx.add_tlc('PathSafety/cases-%s-%s' % (kind.name, iname), r)
-            groups = {}
-            for c in cases:
-                req, mout, mt = c
-                groups.setdefault((req['flow'], mout, hostile_component(req), len(req['dims'])), []).append(c)
-            chosen = []
-            for g in sorted(groups):
-                cs = groups[g]
-                chosen += ctx.rng.sample(cs, min(per_group, len(cs)))
-            world = World(ctx, kind, levels=2, meta=1, name='r-' + kind.name)
-            mworld = None
-            try:
-                for req, mout, mt in chosen:
-                    w = world
-                    if req['flow'] == 'multiapp':
-                        if mworld is None:
-                            mworld = World(ctx, kind, levels=2, meta=1, multiapp=True, name='rm-' + kind.name)
-                        w = mworld
-                    o = observe(w, req)
-                    nreplayed += 1
-                    ctx.cov['replayed_behaviours'] += 1
-                    ctx.cov['replayed_steps'] += 1 + sum(1 for k in ('layer', 'dims', 'tile', 'path') if req.get(k)) + len(mt)
-                    ctx.count(('case', kind.name, describe(req)))
-                    report_unsafe(ctx, w, req, o, 'replaying a TLC case')
-                    bad = compare_case(w, req, mout, mt, o)
-                    if bad:
-                        ctx.violation({'kind': 'replay', 'flow': req['flow'], 'backend': kind.backend, 'model_out': mout,
-                                       'real_out': o.out},
-                                      '%s: request %s: %s' % (kind.name, describe(req), bad),
-                                      {'kind': kind.name, 'levels': 2, 'meta': 1, 'multiapp': req['flow'] == 'multiapp',
-                                       'requests': [req], 'model': {'out': mout, 'touched': mt}})
-                if chosen:
-                    req, mout, mt = chosen[len(chosen) // 2]
-                    ctx.sample({'kind': 'TLC case executed on %s' % kind.name, 'request': describe(req), 'model_out': mout,
-                                'model_touched': ['/'.join(m['path']) for m in mt]})
-            finally:
-                world.close()
-                if mworld:
-                    mworld.close()
+    insts = [('a', dict(levels=2, tok=['', '..', 'a', 'v1', 'decoy'], maxsegs=2, maxdims=1, idx=(-1, 0, 1, 2))),
+             ('b', dict(levels=2, tok=['..', 'decoy'], maxsegs=3 if thorough else 2, maxdims=2, idx=(0,), flows=['wms']))]
+    todo = [(kind, iname, kw) for kind in kinds for iname, kw in insts]
+    with ThreadPoolExecutor(max_workers=4) as ex:
+        dumps = list(ex.map(lambda t: terminal_cases(ctx, t[0].name + '-' + t[1], mc_consts(t[0], variant, **t[2])), todo))
+    for (kind, iname, kw), (r, cases) in zip(todo, dumps):
+        ctx.add_tlc('PathSafety/cases-%s-%s' % (kind.name, iname), r)
+        groups = {}
+        for c in cases:
+            req, mout, mt = c
+            groups.setdefault((req['flow'], mout, hostile_component(req), len(req['dims'])), []).append(c)
+        chosen = []
+        for g in sorted(groups):
+            cs = groups[g]
+            chosen += ctx.rng.sample(cs, min(per_group, len(cs)))
+        world = World(ctx, kind, levels=2, meta=1, name='r-' + kind.name)
+        mworld = None
+        try:
+            for req, mout, mt in chosen:
+                w = world
+                if req['flow'] == 'multiapp':
+                    if mworld is None:
+                        mworld = World(ctx, kind, levels=2, meta=1, multiapp=True, name='rm-' + kind.name)
+                    w = mworld
+                o = observe(w, req)
+                nreplayed += 1
+                ctx.cov['replayed_behaviours'] += 1
+                ctx.cov['replayed_steps'] += 1 + sum(1 for k in ('layer', 'dims', 'tile', 'path') if req.get(k)) + len(mt)
+                ctx.count(('case', kind.name, describe(req)))
+                report_unsafe(ctx, w, req, o, 'replaying a TLC case')
+                bad = compare_case(w, req, mout, mt, o)
+                if bad:
+                    ctx.violation({'kind': 'replay', 'flow': req['flow'], 'backend': kind.backend, 'model_out': mout,
+                                   'real_out': o.out},
+                                  '%s: request %s: %s' % (kind.name, describe(req), bad),
+                                  {'kind': kind.name, 'levels': 2, 'meta': 1, 'multiapp': req['flow'] == 'multiapp',
+                                   'requests': [req], 'model': {'out': mout, 'touched': mt}})
+            if chosen:
+                req, mout, mt = chosen[len(chosen) // 2]
+                ctx.sample({'kind': 'TLC case executed on %s' % kind.name, 'request': describe(req), 'model_out': mout,
+                            'model_touched': ['/'.join(m['path']) for m in mt]})
+        finally:
+            world.close()
+            if mworld:
+                mworld.close()
     ctx.log('spec -> code: %d TLC cases executed on the real application' % nreplayed)
 
 
@@ -932,6 +928,9 @@ def rand_request(rng, world):
             x1, y1 = min(2 ** z - 1, x0 + rng.randint(0, 1)), min(2 ** z - 1, y0 + rng.randint(0, 1))
             req['range'] = [x0, y0, x1, y1]
             x, y = x0, y0
+        elif rng.random() < 0.3:
+            req['tiled'] = True          # WMS-C: single tile, with metadata
+        req['v130'] = rng.random() < 0.3
     elif rng.random() < 0.3:
         k = rng.randrange(6)
         if k == 0:
